@@ -98,6 +98,8 @@ class SymRepo(G.Repository):
         self.interfere = interfere
         self.head = None
         self.fresh_origin = {}   # fresh atom -> description (for replays)
+        self.fresh_anc = {}      # fresh atom -> set of fresh atoms in its closure (incl. itself)
+        self.free_atoms = []     # slots of dead commits (history mode, see gc_fresh)
         W = self.W
         self.anc = ([z3.BitVec('anc%d' % i, W) for i in range(natoms)]
                     + [None] * nfresh)
@@ -146,16 +148,24 @@ class SymRepo(G.Repository):
         self.persistent_rejection = persistent_rejection
         self.pre_remote = dict(self.remote)
         self.pre_tags = dict(self.remote_tags)
+        # history mode (harness/history.py): merge conflicts and build results
+        # are functions of the *content* (closure without the commits created
+        # by conflict-free merges), so that re-doing a merge or re-building the
+        # same content in a later job gives the same answer
+        self.content_keyed = False
+        self.statusC = z3.Function('status_of_content', z3.BitVecSort(W), z3.IntSort())
+        self.boundary = None     # f(repo, what): called before every push command
 
-    # -- Repository API that must not touch the file system -----------------
-    def reset(self):
-        pass
-
-    def delete(self):
-        pass
-
+    # -- Repository API ------------------------------------------------------
+    # reset() / delete() are the real ones (they only create / remove an empty
+    # scratch directory and clear the ls-remote cache).  clone() is replaced: the
+    # clone is the model's local ref table; like the real one it moves
+    # cmd_directory into a sub-directory of the scratch directory.
     def clone(self):
         self.oplog.append(['<clone>'])
+        if self.tmp_directory:
+            import os
+            self.cmd_directory = os.path.join(self.tmp_directory, 'repo')
 
     def __deepcopy__(self, memo):
         return self
@@ -163,15 +173,18 @@ class SymRepo(G.Repository):
     def get_branches_from_commit(self, commit, refresh_cache=False):
         if not isinstance(commit, SSha):
             raise HarnessError('get_branches_from_commit(%r)' % (commit,))
-        return {n for n, t in self.remote.items()
-                if self.ctx.decide(t == commit.idx)}
+        # as the real one: through the ls-remote cache (the real method formats
+        # the sha as text, which a symbolic commit id cannot follow)
+        self._get_remote_branches(refresh_cache)
+        return self._remote_heads[commit]
 
     def _get_remote_branches(self, force=False):
         # `git ls-remote --heads`: the *server* state, names are concrete
-        if not force and self._remote_branches:
+        if not force and (self._remote_branches or self._remote_heads):
             return
+        # a snapshot of the server at the time of the call (it is a cache)
         self._remote_branches = {n: SSha(self, t) for n, t in self.remote.items()}
-        self._remote_heads = _Heads(self)
+        self._remote_heads = _Heads(self, dict(self.remote))
 
     # -- helpers -------------------------------------------------------------
     def concrete_closure(self, i, mask):
@@ -191,17 +204,56 @@ class SymRepo(G.Repository):
     def subset_t(self, a, b):
         return a & ~b == 0
 
+    def content(self, idx):
+        """Closure of a commit without the commits made by conflict-free merges."""
+        keep = z3.BitVecVal(((1 << self.W) - 1) & ~self.merge_mask, self.W)
+        return z3.simplify(self.cl(idx) & keep)
+
+    def status_term(self, idx):
+        if self.content_keyed:
+            return self.statusC(self.content(idx))
+        return self.status_of(idx)
+
     def subset(self, a, b):
         return self.ctx.decide(self.subset_t(a, b))
 
-    def fresh(self, closure, origin=''):
-        if self.nfresh_used >= self.M:
-            raise HarnessError('bound on fresh commits (%d) exhausted' % self.M)
-        i = self.N + self.nfresh_used
-        self.nfresh_used += 1
+    def fresh(self, closure, origin='', parents=()):
+        if self.free_atoms:
+            i = self.free_atoms.pop(0)
+        else:
+            if self.nfresh_used >= self.M:
+                raise HarnessError('bound on fresh commits (%d) exhausted' % self.M)
+            i = self.N + self.nfresh_used
+            self.nfresh_used += 1
+        self.merge_mask &= ~(1 << i)
         self.anc[i] = z3.simplify(closure | z3.BitVecVal(1 << i, self.W))
         self.fresh_origin[i] = origin
+        fa = {i}
+        for p in parents:
+            fa |= self.fresh_anc_of(p)
+        self.fresh_anc[i] = fa
         return z3.IntVal(i)
+
+    def fresh_anc_of(self, term):
+        """Commits created during the run that are ancestors of `term` (a ref tip).
+        Ref tips are never mixtures: a symbolic tip is a pre-existing commit."""
+        t = z3.simplify(term) if z3.is_expr(term) else z3.IntVal(term)
+        if z3.is_int_value(t) and t.as_long() >= self.N:
+            return self.fresh_anc.get(t.as_long(), {t.as_long()})
+        return set()
+
+    def gc_fresh(self, roots):
+        """History mode: commits created by earlier jobs that no ref in `roots`
+        (server refs, tags, saved snapshots) reaches died with the clone that made
+        them; their slots are reused.  Only sound with content_keyed (no
+        constraint mentions a dead commit)."""
+        if not self.content_keyed:
+            raise HarnessError('gc_fresh needs content_keyed')
+        live = set()
+        for t in roots:
+            live |= self.fresh_anc_of(t)
+        used = set(range(self.N, self.N + self.nfresh_used))
+        self.free_atoms = sorted(used - live)
 
     def resolve(self, name):
         if isinstance(name, SSha):
@@ -454,14 +506,21 @@ class SymRepo(G.Repository):
         c2 = C[red[1]] if len(red) > 1 else zero
         if len(red) > 2:
             raise HarnessError('merge of more than two heads')
-        if not self.no_conflicts and self.ctx.decide(self.conflictF(D, c1, c2)):
+        if self.content_keyed:
+            keep = z3.BitVecVal(((1 << self.W) - 1) & ~self.merge_mask, self.W)
+            cf = self.conflictF(z3.simplify(D & keep), z3.simplify(c1 & keep), z3.simplify(c2 & keep))
+        else:
+            cf = self.conflictF(D, c1, c2)
+        if not self.no_conflicts and self.ctx.decide(cf):
             self.conflicts_taken += 1
             raise CommandError('CONFLICT (content)')
         u = D
         for k in red:
             u = u | C[k]
-        self.tip[dst] = self.fresh(u, 'merge into %s of %s' % (dst, [str(s) for s in srcs]))
-        self.merge_mask |= 1 << (self.N + self.nfresh_used - 1)
+        new = self.fresh(u, 'merge into %s of %s' % (dst, [str(s) for s in srcs]),
+                         parents=[self.tip[dst]] + [S[k] for k in red])
+        self.tip[dst] = new
+        self.merge_mask |= 1 << new.as_long()
         return 'Merge made'
 
     def _git_ls_remote(self, rest, kw):
@@ -475,6 +534,8 @@ class SymRepo(G.Repository):
                          '--set-upstream'):
                 raise HarnessError('push flag %r' % f)
         self.third_party('before push %s' % ' '.join(rest))
+        if self.boundary is not None:
+            self.boundary(self, 'git push %s' % ' '.join(rest))
         force = '--force' in flags
         if '--all' in flags:
             atomic = '--atomic' in flags
@@ -586,14 +647,19 @@ class SymRepo(G.Repository):
 class _Heads(dict):
     """`_remote_heads[sha]` -> set of branch names whose server tip is sha."""
 
-    def __init__(self, repo):
+    def __init__(self, repo, snapshot):
         super().__init__()
         self.repo = repo
+        self.snapshot = snapshot
+        self.filled = True
+
+    def __bool__(self):
+        return True
 
     def __getitem__(self, sha):
         if not isinstance(sha, SSha):
             raise HarnessError('_remote_heads lookup with %r' % (sha,))
-        return {n for n, t in self.repo.remote.items()
+        return {n for n, t in self.snapshot.items()
                 if self.repo.ctx.decide(t == sha.idx)}
 
     def __missing__(self, k):
@@ -626,7 +692,9 @@ class StatusHost:
         if key != self.key:
             t = self.repo.ctx.fresh_int('status_other_key')
         else:
-            t = self.repo.status_of(sha.idx)
+            t = self.repo.status_term(sha.idx)
+            if self.repo.content_keyed:
+                self.repo.ctx.assume(z3.And(t >= 0, t < len(STATUSES)))
         return SEnum(t, STATUSES)
 
 
